@@ -56,6 +56,7 @@ type gen struct {
 	txFacts map[[2]int]*TxFacts
 	entropy int64
 	accepted [][2]int // (block, tx) of transactions the model accepted (candidates for replay)
+	prop     string   // the property the run is generated for
 	aclTaker int      // while a gov/acl value is being built: the account it should name as the list's owner (-1: none)
 	refused  [][2]int // ... and of those it saw refused, before or after the ante handler passed (replayed too)
 	pendingIndex []string
@@ -183,7 +184,7 @@ var stakeChoices = []int64{1000001, 1000002, 1500000, 2000000, 2000000, 3000000,
 func Generate(property, tier string, seed uint64) *Trace {
 	r := core.NewRng(seed)
 	mode := modeFor(property, r)
-	g := &gen{aclTaker: -1, r: r, cfg: configFor(mode, tier, r), sets: map[int64][]SetMember{}, beh: map[int]*valBehaviour{}, acctOf: map[string]int{},
+	g := &gen{prop: property, aclTaker: -1, r: r, cfg: configFor(mode, tier, r), sets: map[int64][]SetMember{}, beh: map[int]*valBehaviour{}, acctOf: map[string]int{},
 		times: map[int64]int64{}, txFacts: map[[2]int]*TxFacts{}}
 	tr := &Trace{Engine: "chainsim", Property: property, Mode: mode, Seed: seed, KeySeed: core.SplitMix64(seed ^ 0x6b657973)}
 	g.tr = tr
@@ -217,6 +218,18 @@ func Generate(property, tier string, seed uint64) *Trace {
 			}
 		}
 		gen.Balances = append(gen.Balances, b)
+	}
+	if r.Chance(0.08) {
+		// two rich accounts whose balances are below 2^64 each and beyond it together
+		gen.Balances[1], gen.Balances[2] = 4000000000000000000, 4000000000000000000
+		gen.Quad = append(gen.Quad, 2)
+		var kilo []int
+		for _, k := range gen.Kilo {
+			if k != 1 && k != 2 {
+				kilo = append(kilo, k)
+			}
+		}
+		gen.Kilo = kilo
 	}
 	if r.Chance(0.4) {
 		bigDust := r.Chance(0.4)
@@ -669,6 +682,10 @@ func (g *gen) genBlock(bi int) {
 		}
 		if r.Chance(g.cfg.crashRate) {
 			blk.Faults = append(blk.Faults, Fault{Replica: ri, Kind: "crash_commit", K: r.Intn(64), IOErr: r.Chance(0.35)})
+		}
+		if ri > 0 && g.prop == "C01" && r.Chance(0.08) {
+			// this replica's log sink stalls during the block (simulated time jumps inside its loops)
+			blk.Faults = append(blk.Faults, Fault{Replica: ri, Kind: "stall", K: r.Intn(12)})
 		}
 		if r.Chance(g.cfg.powerLossRate) {
 			blk.Faults = append(blk.Faults, Fault{Replica: ri, Kind: "power_loss", K: r.Range(1, 6)})
@@ -1285,6 +1302,18 @@ func (g *gen) genReadOnly(bi, pos int, h int64) ReadOnly {
 		}
 		if r.Chance(0.15) {
 			s = TxSpec{Kind: "unjail", Acct: g.pickAcct()}
+		}
+		if r.Chance(0.12) {
+			// a DAO action that is only simulated / checked: whatever it mints, burns or moves is discarded
+			who := g.pickAcct()
+			if g.m.P.DAOOwner >= 0 && r.Chance(0.8) {
+				who = g.m.P.DAOOwner
+			}
+			s = TxSpec{Kind: []string{"dao_burn", "dao_transfer"}[r.Intn(2)], Acct: who, To: g.pickAcct(), Amount: fmt.Sprint(r.Range(1, 500000))}
+		}
+		if r.Chance(0.06) {
+			// ... or an award / a burn through the stand-in module
+			s = TxSpec{Kind: "award", Acct: g.pickAcct(), To: g.pickAcct(), Amount: fmt.Sprint(r.Range(1, 100000))}
 		}
 		if g.cfg.mode == "governance" && r.Chance(0.6) {
 			// a governance message by whoever the model thinks owns the key (its committed-state view may differ
